@@ -25,7 +25,14 @@ for d in sorted(os.listdir(root)):
     dm = subprocess.run(["/venv/bin/python", os.path.join(root, d, "demo.py")], cwd=wt, capture_output=True, text=True,
                         env=dict(os.environ, PYTHONPATH=wt, REPO_UNDER_TEST=wt), timeout=900)
     t0 = time.time()
-    p = subprocess.run(["./check", pid, "--tier", tier], cwd="/verif", env=dict(os.environ, VERIF_REPO=wt), capture_output=True, text=True)
+    # private copy of the Coq tree + build/evidence dirs: Gen/ is regenerated for the patched tree without touching /verif/coq
+    priv = "/tmp/seedrun_%s_%s" % (pid, n)
+    subprocess.run(["rm", "-rf", priv]); os.makedirs(priv)
+    subprocess.run(["cp", "-a", "/verif/coq", priv + "/coq"], check=True)
+    p = subprocess.run(["./check", pid, "--tier", tier], cwd="/verif",
+                       env=dict(os.environ, VERIF_REPO=wt, VERIF_COQ_DIR=priv + "/coq", VERIF_BUILD_DIR=priv + "/build",
+                                VERIF_EVIDENCE_DIR=priv + "/evidence"), capture_output=True, text=True)
+    subprocess.run(["rm", "-rf", priv])
     lines = [l for l in p.stdout.splitlines() if l.startswith(("VIOLATION", "KNOWN-FINDING", "OK"))]
     detail = [l.strip() for l in p.stderr.splitlines() if l.strip()][:6]
     res = {"check": "./check %s --tier %s (VERIF_REPO=worktree with patch applied)" % (pid, tier), "exit": p.returncode,
@@ -36,5 +43,3 @@ for d in sorted(os.listdir(root)):
     json.dump(res, open(os.path.join(root, d, "result_%s.json" % tier), "w"), indent=1)
     subprocess.run(["git", "-C", "/repo", "worktree", "remove", "--force", wt], capture_output=True)
     print(d, "CAUGHT" if res["caught"] else "MISSED", "demo_rc=%d" % dm.returncode, "(no-failing-input)" if res["no_failing_input_found"] else "", res["wall_s"], "s", detail[:1])
-# restore Gen/.vo state for the real repo
-subprocess.run(["./check", pid, "--tier", "quick"], cwd="/verif", capture_output=True, text=True)
